@@ -35,6 +35,8 @@ def shards(tier):
     ]
     for k in range(3 if q else 8):
         out.append({"name": "circ.np.jit.%d" % k, "mode": "jit", "backend": "np", "fn": "circuits", "n": 150 if q else 8000})
+    out.append({"name": "big.np.jit", "mode": "jit", "backend": "np", "fn": "circuits", "n": 6 if q else 150, "Ns": [33, 64, 65, 66, 70, 130]})
+    out.append({"name": "forms.np.jit", "mode": "jit", "backend": "np", "fn": "circuits", "n": 40 if q else 1500, "forms": 1})
     return out
 
 
@@ -238,6 +240,17 @@ def rand_items(rng, N, length):
     return items
 
 
+def wide_items(rng, N):
+    prog, hot = PR.wide_program(rng, N, int(rng.integers(3, 9)))
+    items = [("g", s) for s in prog]
+    for _ in range(int(rng.integers(1, 4))):
+        qs = [int(x) for x in rng.choice(hot, size=int(rng.integers(1, 5)), replace=False)]
+        items.insert(int(rng.integers(len(items) + 1)), ("m", qs))
+    if rng.integers(3) == 0:
+        items.append(("m", list(range(N))))     # a full-register measurement layer: N coins in one kernel call
+    return items
+
+
 def build_circuit(B, items, N):
     circ = B.circuit.Circuit(N)
     inserted = []
@@ -288,11 +301,32 @@ def run_circuits(shard, rec, B):
     rng = gen.rng_for(rec)
     interp = env.mode() == "interp"
     for t in range(shard["n"]):
-        N = int(rng.integers(1, 6))
-        items = rand_items(rng, N, int(rng.integers(1, 13)))
+        N = int(rng.integers(1, 6)) if not shard.get("Ns") else int(shard["Ns"][t % len(shard["Ns"])])
+        items = rand_items(rng, N, int(rng.integers(1, 13))) if not shard.get("Ns") else wide_items(rng, N)
         nm = sum(len(x) for k, x in items if k == "m")
         desc = {"N": N, "items": [["Mz", x] if k == "m" else PR.describe(x) for k, x in items]}
-        ok, res = rec.attempt("circ.build", desc, lambda: build_circuit(B, items, N))
+        staged = (t % 4 == 3)
+        if staged:
+            # ONE live Circuit: a gates-only prefix is taken and compiled (whole-circuit maps exist now), then measurement
+            # layers and more gates are taken, then it is compiled again as documented; stale prefix maps must not be used
+            k0 = next((i for i, (kd, _) in enumerate(items) if kd == "m"), len(items))
+            desc["staged_prefix"] = k0
+
+            def build_staged():
+                c, ins = build_circuit(B, items[:k0], N) if k0 else (B.circuit.Circuit(N), [])
+                c.compile()
+                for kd, x in items[k0:]:
+                    if kd == "g":
+                        g = PR.make_gate(B, x, N)
+                        c.take(g)
+                        ins.append(g)
+                    else:
+                        c.measure(*x)
+                        ins.append(c.last_layer)
+                return c, ins
+            ok, res = rec.attempt("circ.build", desc, build_staged)
+        else:
+            ok, res = rec.attempt("circ.build", desc, lambda: build_circuit(B, items, N))
         if not ok:
             continue
         circ, inserted = res
